@@ -494,8 +494,8 @@ def np_eval(var: Var, env: dict):
         if len(ins) > 2 and ins[2] is not None: x = np.minimum(x, ins[2])
         out = [x]
     elif k == "Constant": out = [A.value.value]
-    elif k in ("ReduceSum", "ReduceMin", "ReduceMax"):
-        f = {"ReduceSum": np.sum, "ReduceMin": np.min, "ReduceMax": np.max}[k]
+    elif k in ("ReduceSum", "ReduceMin", "ReduceMax", "ReduceMean", "ReduceProd"):
+        f = {"ReduceSum": np.sum, "ReduceMin": np.min, "ReduceMax": np.max, "ReduceMean": np.mean, "ReduceProd": np.prod}[k]
         axes = None
         if len(ins) > 1 and ins[1] is not None: axes = tuple(int(x) for x in ins[1].tolist())
         elif getattr(A, "axes", None) is not None: axes = tuple(A.axes.value)
